@@ -21,7 +21,7 @@ TEXT = {'text': 'Kernel-checked theorems over the per-field merge policy table t
          'complement is pinned by computation: the output commitments are fixed by the unique id (C14_commitments_fixed_by_uid), tx_data.fallback_locktime and the '
          'clearing of non_witness_utxo are unrepaired findings refuted by witnesses; the xpub key-source reconciliation equals its documented algorithm and never '
          'panics, for every pair of key sources (C14_xpub, unconditional after the F2+F4 repair); both merge orders of compatible descendants give the same PSET '
-         '(C14_commutes; the k-member family statement is kept visible, proved for k = 2, exercised for k <= 4 by the run). Model and crate are run on the same '
+         '(C14_commutes); the scalar list, whose extend/sort/dedup statements are read in source order and executed exactly, merges to a duplicate-free sorted union in either direction for any two lists (C14_scalars); (the k-member family statement is kept visible, proved for k = 2, exercised for k <= 4 by the run). Model and crate are run on the same '
          'PSETs on every check.',
  'design_ref': 'DESIGN.md section 6, C14',
  'note': 'Trusted: Coq kernel; translator (statement recogniser for fn merge bodies; unknown statements are a hard error); hand-written semantics of each '
